@@ -26,9 +26,9 @@ func PathsOf(keys []string, frombit int32, height int32, dedup bool) []uint64 {
 	l := len(keys)
 	rst := make([]uint64, 0, l)
 	prev := ^uint64(0)
-	for _, s := range keys {
+	for i, s := range keys {
 		p := PathOf(s, frombit, height)
-		if !dedup || p != prev {
+		if !dedup || i == 0 || p != prev {
 			rst = append(rst, p)
 		}
 		prev = p
